@@ -403,5 +403,7 @@ class Run:
         ev = {"property_id": self.prop, "tier": self.tier, "seed": self.seed, "level": self.level,
               "coverage": cov, "assumptions": self.assumptions,
               "wall_s": round(time.time() - self.t0, 1), "violations": nviol}
-        os.makedirs(EVIDENCE, exist_ok=True)
-        json.dump(ev, open(os.path.join(EVIDENCE, "%s.json" % self.prop), "w"), indent=1)
+        # evidence/ is for the listed properties; checks beyond the list (LIFECYCLE) keep theirs in the scratch area
+        dest = EVIDENCE if re.fullmatch(r"C\d\d", self.prop) else os.path.join(WORK, "evidence")
+        os.makedirs(dest, exist_ok=True)
+        json.dump(ev, open(os.path.join(dest, "%s.json" % self.prop), "w"), indent=1)
